@@ -552,6 +552,9 @@ class TaskScenario(ScenarioData):
                     # 1. Predecessors with onstart deps (our END <= their START)
                     # 2. Successors (tasks depending on this - our END <= their START)
                     latest_end = self.project["end"]  # Default to project end
+                    container_deadline = getattr(self, "containerDeadline", None)
+                    if container_deadline and container_deadline < latest_end:
+                        latest_end = container_deadline
 
                     # Check onstart dependencies - our END must be before predecessor's START
                     # with gapduration subtracted if specified
